@@ -648,8 +648,8 @@ impl FunctionCompiler<'_> {
         self.builder.ins().jump(continue_block, &[]);
     }
 
-    /// Runs the defers of every scope between here and the scope labelled `label`.
-    /// The defers of `label` itself are not run.
+    /// Runs the defers of every scope between here and the scope labelled `label`,
+    /// including the defers of `label` itself that have been registered so far.
     fn unwind_defers_to(&mut self, label: hir::ScopeId) {
         // run all the defers from here, backwards to the one we are breaking out of
 
@@ -657,20 +657,18 @@ impl FunctionCompiler<'_> {
 
         // todo: don't do popping
         while let Some(frame) = self.defer_stack.last().cloned() {
-            // the exit block of every Expr::Block contains the instructions for running
-            // the defers. This break instruction jumps to that exit block.
-            // therefore, we only need to insert extra defer handling for everything OTHER
-            // than the block we are breaking to.
-            if let Some(id) = frame.id {
-                if id == label {
-                    break;
-                }
-            }
-
             // do it in reverse to make sure later defers can still rely on the allocations of
             // previous defers
             for defer in frame.defers.iter().rev() {
                 self.compile_expr(*defer);
+            }
+
+            // the exit block of an Expr::Block does not run any defers: a jump to it can come
+            // from before a later `defer` statement of that block was reached, and such a
+            // defer must not run. So the defers of the block we are breaking to are run here
+            // as well, but only the ones registered so far (the ones the program has executed).
+            if frame.id == Some(label) {
+                break;
             }
 
             used_frames.push(self.defer_stack.pop().unwrap());
@@ -1415,6 +1413,21 @@ impl FunctionCompiler<'_> {
                     .flatten();
 
                 if !no_eval {
+                    // the end of the block was reached, so every defer of this block was executed.
+                    // run them here and not in the exit block, because a `break` to this block
+                    // jumps to the exit block after having run only the defers it has passed
+                    let own_defers = self
+                        .defer_stack
+                        .last()
+                        .expect("we just pushed this")
+                        .defers
+                        .clone();
+                    // do it in reverse to make sure later defers can still rely on the allocations of
+                    // previous defers
+                    for defer in own_defers.iter().rev() {
+                        self.compile_expr(*defer);
+                    }
+
                     if let Some(value) = value {
                         self.builder
                             .ins()
@@ -1484,19 +1497,10 @@ impl FunctionCompiler<'_> {
                 self.builder.switch_to_block(exit_block);
                 self.builder.seal_block(exit_block);
 
-                // unwind our defers
+                // our defers have been run by every path that jumps here
 
                 let defer_frame = self.defer_stack.pop().expect("we just pushed this");
-
-                if !no_eval || scope_id.is_some() {
-                    debug_assert_eq!(defer_frame.id, scope_id);
-
-                    // do it in reverse to make sure later defers can still rely on the allocations of
-                    // previous defers
-                    for defer in defer_frame.defers.iter().rev() {
-                        self.compile_expr(*defer);
-                    }
-                }
+                debug_assert_eq!(defer_frame.id, scope_id);
 
                 if final_ty.into_real_type().is_some() {
                     Some(self.builder.block_params(exit_block)[0])
